@@ -124,6 +124,12 @@ fn with_user_data(mut s: Secret, r: &mut Rng, kind: &str, all: &mut Vec<(String,
 pub fn run(text: &str, cases_path: &str, out: &mut impl Write) {
     let rt = rt();
     let base = std::path::Path::new(cases_path).parent().unwrap().join("data-c03");
+    // the SDK's own file logger with its default filter, as applications enable it: the log directory is
+    // part of what is scanned
+    let logs_dir = base.join("sdk-logs");
+    let _ = std::fs::remove_dir_all(&logs_dir);
+    std::fs::create_dir_all(&logs_dir).unwrap();
+    let _ = sos_logs::Logger::new_dir(logs_dir.clone(), sos_logs::LOG_FILE_NAME.to_string()).init_file_subscriber(None);
     for line in text.lines() {
         let toks: Vec<&str> = line.split_whitespace().collect();
         if toks.len() < 2 || toks[0].starts_with('#') {
@@ -280,6 +286,7 @@ pub fn run(text: &str, cases_path: &str, out: &mut impl Write) {
             // ---- scan
             let mut files: Vec<(String, Vec<u8>)> = vec![];
             read_tree(&w.base, "", &mut files);
+            read_tree(&logs_dir, "sdk-logs", &mut files);
             // the names of the files are stored bytes too
             let names: Vec<u8> = files.iter().flat_map(|f| f.0.as_bytes().iter().copied().chain(std::iter::once(b'\n'))).collect();
             files.push(("<file-names>".into(), names));
